@@ -55,6 +55,12 @@ def lru_stems_from_parsed_url(parsed_url, suffix_aware=True):
 
         else:
             domain, suffix = split_result
+
+            # NOTE: split_suffix ignores the dots of a fully qualified name,
+            # they are kept on the suffix so that no information is lost
+            hostname = netloc[0]
+            suffix += hostname[len(hostname.rstrip(".")) :]
+
             lru.append("h:" + suffix)
 
             if domain:
